@@ -724,6 +724,10 @@ Proof. intros HL H. exact (lex_lookup_nodup_of_cert_prop L rows fuel HL (cert_pa
 Definition accessor_shape_ok : bool :=
   String.eqb LF.dictionary_id_shape "oov->-1;else->dic" && (LF.IS_OOV_DIC =? LF.OOV_DIC).
 
+(* every reference list is re-stamped under its own subset flag; a split unit is a word id literal only as a whole *)
+Definition reference_shapes_ok : bool :=
+  LF.restamp_per_list && String.eqb LF.unit_literal_rule "whole-unit ^U?[0-9]+$".
+
 Definition join_shapes_ok : bool :=
   String.eqb LF.join_oov_wid_rule "max-of-parts;non-oov->(dic,MAX_WORD)" && LF.user_dict_per_listing.
 
